@@ -672,6 +672,22 @@ pub fn signatures(p: &ParsedSource, text: &str) -> BTreeMap<String, String> {
         _ => ann_text.contains("undefined") || ann_text == "any" || ann_text == "unknown" || ann_text.is_empty(),
       };
       out.insert(format!("{key}/param{i}/accepts-undefined"), if accepts { "yes".into() } else { "no".into() });
+      // may the argument be omitted at a call site? `p?` always; `p = d` only when
+      // no required parameter follows (the documented normalisation turns a
+      // default before a required parameter into `p: T | undefined`)
+      let is_required = |p: &Pat| match p {
+        Pat::Assign(_) | Pat::Rest(_) => false,
+        Pat::Ident(b) => !b.id.optional,
+        _ => true,
+      };
+      let required_follows = f.params[i + 1..].iter().any(|q| is_required(&q.pat));
+      let omittable = match &prm.pat {
+        Pat::Ident(b) if b.id.optional => true,
+        Pat::Assign(_) => !required_follows,
+        Pat::Rest(_) => true,
+        _ => false,
+      };
+      out.insert(format!("{key}/param{i}/may-be-omitted"), if omittable { "yes".into() } else { "no".into() });
     }
     if let Some(r) = &f.return_type {
       out.insert(format!("{key}/return"), snip(r.type_ann.span()));
